@@ -126,6 +126,8 @@ pub enum Op {
     InsertIdle,
     /// adapt_io on the fd of a live fd source: must fail (already registered) and change nothing
     AdaptDup(usize),
+    /// adapt_io over a descriptor number that is not open (EBADF at the first step)
+    AdaptBad,
     /// insert a second Generic over the fd of a live fd source: must fail and change nothing
     InsertDup(usize),
     /// a removed fd source the harness still holds (Dispatcher): release and drop it now
@@ -364,6 +366,7 @@ pub struct Ctx {
     pub teardown: bool,
     /// the running callback has asked for a disable / update of its own source (deferred by the loop)
     pub cb_self_req: bool,
+    pub bad_adapt_done: bool,
     /// a registration was made to fail (duplicate fd): from now on a damaged kernel table is
     /// also a C15 matter ("a failing call leaves every other source intact")
     pub dup_fault_seen: bool,
@@ -727,6 +730,9 @@ impl Ctx {
             for &k in &c.insertable {
                 v.push(Op::Insert(k));
             }
+        }
+        if c.top_dup && !self.bad_adapt_done {
+            v.push(Op::AdaptBad);
         }
         for (i, a) in self.m.iter().enumerate() {
             if a.alive {
@@ -1100,6 +1106,9 @@ impl Ctx {
                 }
                 if let (Some(prev), Some(dl)) = (self.last_fired_deadline, dl) {
                     if dl < prev && armed {
+                        // the order clause relates two timers: the stray wheel entry that D8 leaves
+                        // behind may belong to either of them
+                        let uwd = self.m.iter().any(|x| x.ever_upd_while_disabled);
                         self.violate(
                             &["C05"],
                             "timer-order",
@@ -1661,6 +1670,25 @@ impl Ctx {
                     KindSpec::Timer(_) | KindSpec::Exec | KindSpec::ExecIo => {}
                 }
             }
+            Op::AdaptBad => {
+                self.clause("bad-fd");
+                self.bad_adapt_done = true;
+                self.dup_fault_seen = true;
+                let before = self.h.verif_stats();
+                let table_before = epoll::table(self.epfd);
+                let r = self.h.adapt_io(BadFd).map(|_| ());
+                if r.is_ok() {
+                    self.violate(&["C15"], "bad-fd-accepted", &[], "adapt_io over a descriptor that is not open succeeded".into());
+                }
+                let after = self.h.verif_stats();
+                let occ = |s: &calloop::verif::Stats| s.slots.iter().filter(|x| x.1).map(|x| x.0).collect::<Vec<_>>();
+                if occ(&before) != occ(&after) {
+                    self.violate(&["C15"], "failed-insert-leaks-slot", &[("how", "adapt_io(EBADF)".into())], format!("adapt_io over a closed descriptor failed but the occupied slots changed: {:?} -> {:?}", occ(&before), occ(&after)));
+                }
+                if table_before != epoll::table(self.epfd) {
+                    self.violate(&["C15", "C16"], "failed-insert-leaks-fd", &[], "adapt_io over a closed descriptor changed the poller's interest list".into());
+                }
+            }
             Op::AdaptDup(j) | Op::InsertDup(j) => {
                 self.clause("duplicate-fd");
                 self.dup_fault_seen = true;
@@ -1835,8 +1863,16 @@ impl Ctx {
                     self.violate(&["C08", "C15", "C02"], "update-failed", &[("kind", "Fd".into())],
                         format!("update of enabled fd {j} with new interest/mode failed: {e:?}"));
                 }
+                // an edge-triggered registration may have had an event collected in this batch that
+                // the model does not predict (extra edge reports are accepted): if the source is
+                // re-configured before that event is served, the delivery still belongs to the old
+                // registration, not to the arming made here
+                let prev_edge = matches!(self.m[j].spec, KindSpec::Fd { mode: 1, .. });
                 self.m[j].spec = KindSpec::Fd { r, w, mode };
                 self.model_reregistered(j, None);
+                if prev_edge && self.in_dispatch && self.rt[j].track.pe_seq.get() == self.m[j].pe_at_start {
+                    self.m[j].stale_in_batch = true;
+                }
             }
             Op::Stale(j, k) => self.stale_op(j, k),
             Op::Advance => seqhooks::advance(Duration::from_nanos(STEP_NS)),
@@ -2290,6 +2326,7 @@ impl Ctx {
     pub fn fingerprint(&self, deep: bool) -> u64 {
         let mut h = std::collections::hash_map::DefaultHasher::new();
         self.m.hash(&mut h);
+        self.bad_adapt_done.hash(&mut h);
         for r in &self.rt {
             r.token.map(|t| calloop::verif::registration_key(&t)).hash(&mut h);
             r.track.registered.get().hash(&mut h);
@@ -2373,6 +2410,14 @@ impl futures::Stream for HStream {
 
 /// Shared reference to a harness-owned eventfd usable as the `F` of `Generic<F>`.
 #[derive(Debug)]
+/// A descriptor number far beyond RLIMIT_NOFILE: never open, every syscall on it gives EBADF.
+pub struct BadFd;
+impl std::os::fd::AsFd for BadFd {
+    fn as_fd(&self) -> std::os::fd::BorrowedFd<'_> {
+        unsafe { std::os::fd::BorrowedFd::borrow_raw(1_000_000) }
+    }
+}
+
 pub struct FdRef(pub Rc<OwnedFd>);
 impl std::os::fd::AsFd for FdRef {
     fn as_fd(&self) -> std::os::fd::BorrowedFd<'_> {
@@ -2420,6 +2465,7 @@ pub fn run_history(cfg: &Rc<Cfg>, verbose: bool) -> (Outcome, Option<Vec<String>
         idles: vec![],
         teardown: false,
         cb_self_req: false,
+        bad_adapt_done: false,
         dup_fault_seen: false,
         dispatch_no: 0,
         pending_efd: None,
